@@ -11,7 +11,7 @@ import vp
 import c07
 
 NAMES = ["detect", "build", "bin", "detect.sh"]
-TOMLS = ["ok", "ok-sbom-formats", "api09", "api10", "ok-broken-rest", "malformed", "absent", "bpdir-unset", "api-not-string", "api-wraps", "api-wraps-major"]
+TOMLS = ["ok", "ok-sbom-formats", "api09", "api10", "ok-broken-rest", "malformed", "absent", "bpdir-unset", "api-not-string", "api-wraps", "api-wraps-major", "bad-utf8-comment", "bad-utf8-string"]
 PLATFORMS = ["ok", "no-env-dir", "env-is-file", "plan-missing", "plan-malformed"]
 SBOMS = ["cdx", "spdx", "syft"]
 DETECT_BEH = ["pass", "plan", "fail", "err"]
@@ -37,6 +37,8 @@ def toml_text(kind):
             # 2^64 + 10 and 2^64 + 0: a different API version than 0.10, whatever a 64-bit parser makes of it
             # sbom-formats declares what the buildpack MAY emit; it is metadata for the platform, not a filter for what the build returned
             "ok-sbom-formats": phase.BP_TOML_OK + 'sbom-formats = ["application/vnd.cyclonedx+json"]\n',
+            # not UTF-8, hence not TOML - however sensible the rest looks (the byte 0xE9 is written through surrogateescape)
+            "bad-utf8-comment": phase.BP_TOML_OK + "# caf\udce9\n", "bad-utf8-string": phase.BP_TOML_OK.replace('id = "', 'name = "caf\udce9"\nid = "', 1),
             "api-wraps": phase.BP_TOML_OK.replace('"0.10"', '"0.18446744073709551626"'), "api-wraps-major": phase.BP_TOML_OK.replace('"0.10"', '"18446744073709551616.10"')}.get(kind)
 
 
@@ -92,7 +94,7 @@ def prepare(lay, cfg):
     if cfg["toml"] == "bpdir-unset":
         t = phase.BP_TOML_OK          # the directory is a perfectly good buildpack; only the variable that names it is missing
     if t is not None:
-        with open(os.path.join(lay.bp, "buildpack.toml"), "w") as f:
+        with open(os.path.join(lay.bp, "buildpack.toml"), "w", errors="surrogateescape") as f:
             f.write(t)
     if cfg["platform"] != "no-env-dir":
         if cfg["platform"] == "env-is-file":
@@ -154,7 +156,7 @@ def expectation(cfg):
     """-> dict(reach: bool, status: 'zero'|'hundred'|'error'|'nonzero', on_error: 0|1|None(<=1))"""
     name = cfg["name"]
     right_argc = {"detect": 2, "build": 3}.get(name)
-    if cfg["toml"] in ("api09", "api10", "malformed", "absent", "bpdir-unset", "api-not-string", "api-wraps", "api-wraps-major"):
+    if cfg["toml"] in ("api09", "api10", "malformed", "absent", "bpdir-unset", "api-not-string", "api-wraps", "api-wraps-major", "bad-utf8-comment", "bad-utf8-string"):
         return {"reach": False, "status": "nonzero", "on_error": None}
     if name not in ("detect", "build") or cfg["argc"] != right_argc:
         return {"reach": False, "status": "nonzero", "on_error": None}
@@ -416,8 +418,8 @@ def run(tier, seed, work):
         res.merge(d)
     if True:
         res.exhaustive = True
-        res.extra["exhaustive_bound"] = ("full product of executable name (4) x argc 0..4 x buildpack.toml kind (8) x presence of each of the 5 CNB_TARGET_* variables x platform/plan condition (3-5) x "
-                                         "pre-existing outputs (2), each with %d seed-chosen behaviour(s), plus every behaviour (4 detect, 38 build) on every dispatching configuration" % (1 if tier == "quick" else 4))
+        res.extra["exhaustive_bound"] = ("full product of executable name (4) x argc 0..4 x buildpack.toml kind (%d) x presence of each of the 5 CNB_TARGET_* variables x platform/plan condition (3-5) x "
+                                         "pre-existing outputs (2), each with %d seed-chosen behaviour(s), plus every behaviour (4 detect, 38 build) on every dispatching configuration" % (len(TOMLS), 1 if tier == "quick" else 4))
     res.extra["process_runs"] = len(cfgs)
     res.rule = ("evaluations = executions of the real runtime as a process. distinct_nontrivial = distinct decision-table cells exercised: (name, argc, buildpack.toml kind, presence of the 4 mandatory "
                 "target variables, platform/plan condition, pre-existing outputs, behaviour class)")
